@@ -66,7 +66,7 @@ SAFE_BUILTINS = {
 }
 SAFE_METHODS = {
     list: {"append", "extend", "index", "count", "copy", "insert", "pop"},
-    dict: {"items", "keys", "values", "get", "copy", "update", "setdefault"},
+    dict: {"items", "keys", "values", "get", "copy", "update", "setdefault", "clear", "pop", "popitem"},
     str: {"join", "format", "lower", "upper", "split", "startswith", "endswith", "strip", "replace", "rstrip", "lstrip", "splitlines", "find", "rfind", "index", "count", "partition", "rpartition",
           "isdigit", "isascii", "encode", "casefold", "rsplit", "isalpha", "isspace", "isalnum", "isprintable", "removeprefix", "removesuffix", "zfill", "isupper", "islower", "rindex", "isdecimal"},
     tuple: {"index", "count"},
